@@ -133,6 +133,28 @@ Theorem C04_balancer_swap_out_floor : forall p i j a fee out,
 Proof. exact b_calc_out_floor. Qed.
 Print Assumptions C04_balancer_swap_out_floor.
 
+(* the integer core of the single-asset join: shares = Truncate( S * (Pow(y, nw) - 1) ), y = (B + in * feeRatio) / B *)
+Theorem C04_balancer_single_join_floor : forall p bal w a fee ts s,
+  b_calc_single_asset_join p bal w a fee ts = Ok s ->
+  exists nw fr y pw,
+    nw = d_quo (dec_of_int w) (dec_of_int (b_total_weight p)) /\ fee_ratio nw fee = Ok fr /\
+    y = d_quo (dec_of_int bal + d_mul (dec_of_int a) fr) (dec_of_int bal) /\
+    pow y nw = Ok pw /\ s = Z.quot ((pw - P18) * ts) P18.
+Proof. exact b_single_asset_join_floor. Qed.
+Print Assumptions C04_balancer_single_join_floor.
+
+(* |result - exact formula| <= eps * reserve + 1: if the power the code computed is within eps of the true power of the
+   18-decimal operands y, wr it used, the amount paid out is within eps * Bout + 1 of Bout * (1 - y^wr) *)
+Theorem C04_balancer_swap_out_formula_error : forall p i j a fee out (eps : R),
+  b_calc_out_given_in p i j a fee = Ok out -> (0 <= nthZ (b_res p) j)%Z ->
+  exists y wr pw : Z,
+    y = d_quo (dec_of_int (nthZ (b_res p) i)) (d_mul (dec_of_int a) (P18 - fee) + dec_of_int (nthZ (b_res p) i)) /\
+    wr = d_quo (dec_of_int (nthZ (b_w p) i)) (dec_of_int (nthZ (b_w p) j)) /\ pow y wr = Ok pw /\
+    (Rabs (IZR pw / D18 - Rpower (IZR y / D18) (IZR wr / D18)) <= eps ->
+     Rabs (IZR out - IZR (nthZ (b_res p) j) * (1 - Rpower (IZR y / D18) (IZR wr / D18))) <= eps * IZR (nthZ (b_res p) j) + 1)%R.
+Proof. exact swap_out_formula_error. Qed.
+Print Assumptions C04_balancer_swap_out_formula_error.
+
 (* value function, real analysis only: paying out at most Bout (1 - y^(wi/wj) (1 - e)) lowers Bin^wi Bout^wj by at most (1 - e)^wj *)
 Theorem C04_value_monotone_abstract : forall Bi Bj a' out wi wj eps : R,
   (0 < Bi -> 0 < Bj -> 0 <= a' -> 0 < wi -> 0 < wj -> 0 <= eps < 1 ->
